@@ -22,6 +22,10 @@ type gossipViewManager struct {
 	// This field holds that value until it is sent to the gossip strategy.
 	NilVotedRound *tmconsensus.VersionedRoundView
 
+	// Nil-voted rounds that were superseded by a later one
+	// before the gossip strategy received them.
+	unsentNilVotedRounds []*tmconsensus.VersionedRoundView
+
 	Committing, Voting, NextRound OutgoingView
 
 	pendingRoundSessionChanges []tmelink.RoundSessionChange
@@ -80,7 +84,13 @@ func (m *gossipViewManager) Output() gossipStrategyOutput {
 	// The nil voted round handling is a little different.
 	// There is not particular version handling for a nil voted round;
 	// whatever we had when we advanced the round, we send.
-	if m.NilVotedRound != nil {
+	if len(m.unsentNilVotedRounds) > 0 {
+		// Earlier nil-voted rounds that the gossip strategy has not received yet
+		// go out first, one per update, oldest first.
+		o.Ch = m.out
+
+		o.Val.NilVotedRound = m.unsentNilVotedRounds[0]
+	} else if m.NilVotedRound != nil {
 		o.Ch = m.out
 
 		o.Val.NilVotedRound = m.NilVotedRound
@@ -97,6 +107,16 @@ func (m *gossipViewManager) Output() gossipStrategyOutput {
 
 // Grace adds a grace-period round session change
 // for the given height and round.
+// SetNilVotedRound records the final view of a round that ended in a nil commit.
+// If an earlier nil-voted round has not been sent yet (the gossip strategy was slow to read),
+// it is kept and sent first, so its precommits are not lost.
+func (m *gossipViewManager) SetNilVotedRound(v *tmconsensus.VersionedRoundView) {
+	if m.NilVotedRound != nil {
+		m.unsentNilVotedRounds = append(m.unsentNilVotedRounds, m.NilVotedRound)
+	}
+	m.NilVotedRound = v
+}
+
 func (m *gossipViewManager) Grace(height uint64, round uint32) {
 	m.pendingRoundSessionChanges = append(
 		m.pendingRoundSessionChanges,
@@ -186,6 +206,12 @@ func (o gossipStrategyOutput) MarkSent() {
 		}
 	}
 
-	// Always clear the NilVotedRound; no version tracking involved there.
-	o.m.NilVotedRound = nil
+	// No version tracking involved for the nil voted round;
+	// clear whichever one this output carried.
+	if len(o.m.unsentNilVotedRounds) > 0 && o.Val.NilVotedRound == o.m.unsentNilVotedRounds[0] {
+		o.m.unsentNilVotedRounds[0] = nil
+		o.m.unsentNilVotedRounds = o.m.unsentNilVotedRounds[1:]
+	} else {
+		o.m.NilVotedRound = nil
+	}
 }
